@@ -91,6 +91,22 @@ func buildProperty(ww *conversionVisitor, node *sourcewalk.PropertyNode) (*descr
 			Options:  &descriptorpb.FieldOptions{},
 		}
 
+		if st.Map.Ext != nil {
+			ww.setJ5Ext(node.Source, fieldDesc.Options, "map", st.Map.Ext)
+		}
+
+		if st.Map.Rules != nil && (st.Map.Rules.MinPairs != nil || st.Map.Rules.MaxPairs != nil) {
+			proto.SetExtension(fieldDesc.Options, validate.E_Field, &validate.FieldConstraints{
+				Type: &validate.FieldConstraints_Map{
+					Map: &validate.MapRules{
+						MinPairs: st.Map.Rules.MinPairs,
+						MaxPairs: st.Map.Rules.MaxPairs,
+					},
+				},
+			})
+			ww.file.ensureImport(bufValidateImport)
+		}
+
 	case *schema_j5pb.Field_Array:
 		if st.Array.Items == nil {
 			return nil, errors.New("missing array items")
